@@ -144,7 +144,7 @@ class DanglingConditionValidator(SigmaRuleValidator):
                 self.condition_unknown_referenced_ids(parsed_condition, rule.detection)
             )
 
-        return [DanglingConditionIssue([rule], name) for name in unknown_detection_refs]
+        return [DanglingConditionIssue([rule], name) for name in sorted(unknown_detection_refs)]
 
 
 @dataclass
